@@ -254,9 +254,18 @@ def block_order(ctx, n):
     return cnt
 
 
+DEFS3 = "\n\n[^a]: note A\n\n[^b]: note B\n\n[^c]: note C\n"
+EDGE_DOCS = [d + DEFS3 for d in (
+    "*see [^a] and [link [^b]](/u)* then [^c]", "**x [^a] [t [^b]](/u 't') y** [^c]", "_[^a] `c` [l [^b]][r]_ [^c]\n\n[r]: /u", "Wow![^a] second[^b] again[^a] [^c]", "First![^a] second[^b] again[^a]",
+    "![*see [the link [^a]](/u) here*](/pic.png) then [^b] [^c]", "![chart [source[^a]](http://e/data)](chart.png) [^b]", "see also[^todo][^a] and [^b][^undefined][^c]", "x[^a]^[^b]^ [^c]", "H~[^a]~ ==[^b]== [^c]",
+    "> q [^a]\n- item [^b]\n# h [^c]", "| h[^a] |\n|---|\n| [^b] |\n\n[^c]", "Read [the manual[^a]](/handbook) first [^b].", "[^a][^a][^b]\n[^c]", "t\n: d[^b]\n\nu[^a] [^c]",
+    "# T[^b]\n\nintro[^a]\n\n## U[^c]\n", "[^a]: dup\n\nx[^a] y[^b]", "x[^A] y[^a] z[^ b ] [^c]")] + \
+    ["x[^a] y[^b]\n\n[^a]: \n[^b]: note B\n", "x[^a]\n\n[^a]:\t\n", "a[^1]\n\n[^1]: one\n   two\n\n   three\n\n    four\n", "[^1]\n\n[^1]: see [^2] inside\n\n[^2]: other\n"]
+
+
 def run(ctx):
     ctx.broken += common.proof_stage(ctx, THEOREMS)
-    docs = [fn_doc(ctx.rng) for _ in range(1500 if ctx.quick() else 15000)]
+    docs = EDGE_DOCS * 6 + [fn_doc(ctx.rng) for _ in range(1500 if ctx.quick() else 15000)]
     n1 = correspondence(ctx, docs)
     n2 = html_oracle(ctx, docs)
     n2 += block_order(ctx, 400 if ctx.quick() else 6000)
